@@ -15,12 +15,21 @@ package flight
 //@ loop #1: scanned: forall(0, idx, func(i int) bool { return forall(0, len(b), func(j int) bool { return a[i] != b[j] }) })
 //@ end
 
-// Cipher suites are interface values compared by ID(). The lists never contain nil entries
-// (they are built by CipherSuiteForID / parseCipherSuites, which drop unknown IDs).
+// Cipher suites are interface values compared by ID(). ID() is an observer: it is assumed to be a
+// pure function of the suite value. The lists never contain nil entries (they are built by
+// ciphersuite.ForID / parseCipherSuites, which drop unknown IDs).
+
+//@ assume-pure CipherSuite.ID
 
 //@ func FindMatchingCipherSuite
 //@ requires no-nil-a: forall(0, len(a), func(i int) bool { return !isNil(a[i]) })
 //@ requires no-nil-b: forall(0, len(b), func(j int) bool { return !isNil(b[j]) })
 //@ ensures in-a: result1 ==> exists(0, len(a), func(i int) bool { return sameRef(a[i], result0) })
+//@ ensures in-b: result1 ==> exists(0, len(b), func(j int) bool { return b[j].ID() == result0.ID() })
+//@ ensures first-in-a: result1 ==> exists(0, len(a), func(i int) bool { return sameRef(a[i], result0) &&
+//@    forall(0, i, func(k int) bool { return forall(0, len(b), func(j int) bool { return a[k].ID() != b[j].ID() }) }) })
+//@ ensures fails-iff-disjoint: !result1 ==> forall(0, len(a), func(i int) bool { return forall(0, len(b), func(j int) bool { return a[i].ID() != b[j].ID() }) })
 //@ ensures nil-on-failure: !result1 ==> isNil(result0)
+//@ loop #1: scanned: forall(0, idx, func(i int) bool { return forall(0, len(b), func(j int) bool { return a[i].ID() != b[j].ID() }) })
+//@ loop #2: scanned-b: forall(0, idx, func(j int) bool { return p1.ID() != b[j].ID() })
 //@ end
